@@ -223,6 +223,17 @@ Lemma rewards_id_stale_refuted : forall c h t, c_rid c = RidLast ->
   rewards_freshb (init_oracle c h t (export_oracle stale_witness)) = false.
 Proof. intros c h t Hc. split; [reflexivity|]. unfold rewards_freshb, init_oracle, rewards_id_after. cbn. rewrite Hc. reflexivity. Qed.
 
+(** Boundary of hypothesis [wo'_pairs_nonempty] (replayed on the implementation,
+    /root/scratch/c20/boundary_empty_whitelist.json): with an empty WhitelistedPairs key set and a
+    non-empty Params.Whitelist, InitGenesis falls back to the whitelist and the second export differs. *)
+Definition pairs_boundary_witness : oracle_st :=
+  {| o_params := 0; o_whitelist := [4; 5]; o_rates := []; o_feeders := []; o_miss := []; o_prevotes := []; o_votes := [];
+     o_pairs := []; o_rewards := []; o_rewards_id := None; o_snaps := [] |}.
+Lemma oracle_pairs_boundary : forall c h t,
+  og_pairs (export_oracle pairs_boundary_witness) = [] /\
+  og_pairs (export_oracle (init_oracle c h t (export_oracle pairs_boundary_witness))) = [4; 5].
+Proof. intros c h t. split; reflexivity. Qed.
+
 (* ================================================================== tokenfactory *)
 Record wf_tf (F : funs) (s : tf_st) : Prop := {
   wt_denoms : sortedb (tf_denoms s) = true;
